@@ -101,8 +101,11 @@ func VerifC04_L3(v *VerifV) {
 		if blk == 3 {
 			continue
 		}
+		r0, s0 := cs.Round, cs.Step
 		_, err := cs.addVote(n.verifVoteFrom(v, i, t, vr, blk), "peer")
 		v.Assert(err == nil, "C04.L3.addvote-error")
+		// a vote never moves the node backwards within the height (each step is entered once per round)
+		v.Assert(cs.Height > verifH || cs.Round > r0 || (cs.Round == r0 && cs.Step >= s0), "C03.step.went-backwards")
 		cast++
 		targets[blk]++
 	}
